@@ -189,7 +189,9 @@ pub(crate) fn bit_string_copy_bulked(
                 & (0xFF << (BYTE_LEN - dst_byte_offset))) // do not destroy current values on the furthe left side
                 | half_left;
 
-            dst[index + dst_byte_index + 1] = half_right;
+            // the bits behind the copied range belong to the destination and must survive
+            dst[index + dst_byte_index + 1] =
+                (dst[index + dst_byte_index + 1] & (0xFF >> dst_byte_offset)) | half_right;
         }
     }
 
